@@ -372,8 +372,10 @@ def gen_ops(rng, depth, budget, palette=None):
             ops.append(["try", gen_ops(rng, depth, budget, palette)])
         elif k < 0.7:
             ops.append([rng.choice(["call", "call", "notify", "batch"])])
-        elif k < 0.88:
+        elif k < 0.84:
             ops.append(["fail-call", rng.choice(["refuse", "reset", "5xx-len", "truncated", "close-before-reply", "4xx-len"])])
+        elif k < 0.88:
+            ops.append(["bad-call"])
         elif depth > 0:
             ops.append(["raise", rng.choice(["exception", "exception", "base"])])
         else:
@@ -487,6 +489,21 @@ class C18Run(object):
                     self.s.probe("base_exception_exit")
                     raise BlockBaseError("interrupted inside the block")
                 raise BlockError("user code failed inside the block")
+            elif op[0] == "bad-call":
+                # a call that fails on the client side while its headers are being written (a value that cannot be
+                # encoded for the wire), inside a block of its own: nothing of it may reach later requests
+                before = [dict(d) for d in tr.additional_headers]
+                try:
+                    with self.proxy._additional_headers({"X-Who": "\u0141ukasz", "X-Stale": "left-over"}):
+                        self.proxy.echo("never sent")
+                    s.emit("bad-call", "returned")
+                except core.SimAbort:
+                    raise
+                except BaseException as ex:
+                    s.emit("bad-call", type(ex).__name__)
+                after = [dict(d) for d in tr.additional_headers]
+                s.emit("block.exit", "exception", after == before, len(after), len(before))
+                s.probe("call_refused_while_writing_headers")
             elif op[0] == "fail-call":
                 self.do_request("call", op[1])
             else:
@@ -749,16 +766,23 @@ def gen_c17(rng):
                 # an earlier exchange on the same proxy is cut in the middle of a large body (or reset): the judged one must not see its remains
                 "pre_fault": rng.choice([None, None, None, "truncated", "reset-mid-body", "bad-header"]),
                 "transport": rng.choice(["own", "own", "supplied", "shared"]), "late_content_type": rng.random() < 0.15}
+    if k < 0.9 and rng.random() < 0.004:
+        # a request body beyond the 10 MiB the server reads at a time, for real (no knob): rare, it costs a second
+        return {"mode": "server", "kind": rng.choice(["plain", "pooled"]), "family": rng.choice(["tcp", "unix"]), "chunk": None,
+                "backend": "ascii", "param": "", "huge": rng.choice([["x", 10 * 1024 * 1024 + 4099], ["\u00e9", 5 * 1024 * 1024 + 4099], ["\u4e2d", 3500000 + 4099]]),
+                "content_type": "application/json-rpc", "seg": "whole", "unbuffered": False, "empty_body": False, "notification": False,
+                "pause": None}
     if k < 0.9:
         chunk = rng.choice([None, 1, 2, 3, 5, 7, 16, 64, 1000])
         return {"mode": "server", "kind": rng.choice(["plain", "pooled"]), "family": rng.choice(["tcp", "unix"]),
                 "chunk": chunk, "backend": backend, "param": gen_text(rng, rng.choice([None, 40, 7, 64])),
                 "content_type": rng.choice(["application/json-rpc", "application/json"]),
-                "seg": rng.choice(["whole", "random", "small"]), "unbuffered": rng.random() < 0.3, "empty_body": rng.random() < 0.08, "notification": rng.random() < 0.12}
+                "seg": rng.choice(["whole", "random", "small"]), "unbuffered": rng.random() < 0.3, "empty_body": rng.random() < 0.08, "notification": rng.random() < 0.12,
+                "pause": [rng.choice(["in-headers", "before-body", "in-body"]), rng.choice([2.0, 7.0, 30.0, 120.0])] if rng.random() < 0.2 else None}
     if k < 0.95:
         return {"mode": "cgi", "backend": backend, "param": gen_text(rng), "content_type": rng.choice(["application/json-rpc", "application/json"]),
                 "via": rng.choice(["stdin", "stdin", "text"])}
-    return {"mode": "scheme", "scheme": rng.choice(["ftp", "ws", "file", "", "unix+ftp", "unix+https", "gopher", "httpx", "unix+", "mailto", "svn+http", "git+https", "tcp+http",
+    return {"mode": "scheme", "supplied_transport": rng.random() < 0.4, "scheme": rng.choice(["ftp", "ws", "file", "", "unix+ftp", "unix+https", "gopher", "httpx", "unix+", "mailto", "svn+http", "git+https", "tcp+http",
                                                       "unix+unix+http", "x-unix+http", "http+unix", "+http", "unix+http+x"])}
 
 
@@ -942,7 +966,17 @@ class C17Run(object):
             else:
                 sock = sm.create_connection(("sim", srv.server_address[1]))
             head = ("POST / HTTP/1.0\r\nContent-Type: application/json-rpc\r\nContent-Length: %d\r\n\r\n" % len(body)).encode()
-            sock.sendall(head + body)
+            if p.get("pause"):
+                # a slow peer: the request arrives in two parts, seconds apart (inside the headers, between headers and
+                # body, or inside the body)
+                whole = head + body
+                cut = {"in-headers": 20, "before-body": len(head), "in-body": len(head) + len(body) // 2}[p["pause"][0]]
+                sock.sendall(whole[:cut])
+                s.fault("peer_pauses_mid_request")
+                s.sleep(p["pause"][1])
+                sock.sendall(whole[cut:])
+            else:
+                sock.sendall(head + body)
             chunks = []
             try:
                 while True:
@@ -1039,7 +1073,16 @@ class C17Run(object):
         s = self.s
         sc = self.p["scheme"]
         try:
-            self.jc.ServerProxy("%s://sim:80/x" % sc)
+            if self.p.get("supplied_transport"):
+                # the scheme is checked whoever provides the transport
+                import jsonrpclib.config as cfgmod
+
+                cfg = cfgmod.Config()
+                tr = self.jc.UnixTransport(config=cfg, path="/sim/peer") if sc.startswith("unix+") else self.jc.Transport(config=cfg)
+                self.jc.ServerProxy("%s://sim:80/x" % sc, transport=tr, config=cfg)
+                s.probe("unsupported_scheme_with_a_supplied_transport")
+            else:
+                self.jc.ServerProxy("%s://sim:80/x" % sc)
             s.emit("scheme", sc, "accepted")
         except OSError:
             s.emit("scheme", sc, "OSError")
@@ -1160,7 +1203,11 @@ def analyse_c17(program, s, run, verdict):
         except ValueError:
             v.append(Violation("C17", "reassembly", "cgi-undecodable", "CGI body undecodable"))
     else:
-        if ev["scheme"][4] != "OSError":
+        if p.get("supplied_transport") and p["scheme"] == "unix+https":
+            # http(s) over a Unix socket is a supported scheme; the library only lacks a transport of its own for the
+            # TLS variant ("unhandled combination"), so with a transport supplied by the caller there is nothing to refuse
+            pass
+        elif ev["scheme"][4] != "OSError":
             v.append(Violation("C17", "scheme", "not-rejected", "scheme %r: %s" % (p["scheme"], ev["scheme"][4])))
     return v
 
@@ -1174,6 +1221,9 @@ class C17Scenario(object):
         return gen_c17(rng)
 
     def run(self, program, decider, chooser=None):
+        if program.get("huge"):
+            # the stored program names the 10 MiB parameter (character, count); it is built here
+            program = dict(program, param=program["huge"][0] * program["huge"][1])
         s = core.Sched(decider, step_cap=400000, horizon=4096.0, chooser=chooser)
         run = C17Run(program, s)
         verdict = s.run(run.root)
@@ -1215,6 +1265,10 @@ class C17Scenario(object):
                 p["empty_request_body"] = 1
             elif pg.get("notification"):
                 p["server_answers_a_notification_with_an_empty_message"] = 1
+            if pg.get("pause"):
+                p["request_with_a_pause_of_seconds_inside"] = 1
+            if pg.get("huge"):
+                p["request_body_beyond_10_MiB_for_real"] = 1
         if s.faults.get("short_read"):
             p["short_reads"] = 1
         stats = {"steps": s.step, "switches": s.nswitch, "simtime": s.now, "verdict": verdict.kind if verdict else None,
